@@ -276,6 +276,21 @@ fn special_strs(b: &Built, ids: &[u32]) -> Option<String> {
 }
 
 pub fn exec(op: &str, a: &[u64]) -> Result<Outcome, String> {
+    let mut o = exec_inner(op, a)?;
+    if op != "bpeword" {
+        // a special-token set that is not prefix-free: the split depends on the order of the regex alternatives, which
+        // the code takes from a HashMap (open in the property; the model refuses such requests)
+        let mut r = Rd::new(a);
+        if let (Ok(_), Ok(c)) = (rd_kind(op, &mut r), rd_common(&mut r)) {
+            if c.tokens.iter().any(|t| c.tokens.iter().any(|u| u != t && u.starts_with(t.as_str()))) {
+                o.pinned = false;
+            }
+        }
+    }
+    Ok(o)
+}
+
+fn exec_inner(op: &str, a: &[u64]) -> Result<Outcome, String> {
     let mut r = Rd::new(a);
     if op == "bpeword" {
         return exec_bpeword(&mut r);
@@ -647,7 +662,12 @@ pub fn rand_common(ctx: &mut Ctx, allow_npf: bool) -> Common {
         tokens.push("<a>b".into());
     } else if r < 66 {
         tokens.push("<extra_token_0>".into());
-    } else if r < 72 {
+    } else if r < 78 {
+        // spellings that a Unicode normalisation would change (ligature, full-width digit, superscript, decomposed
+        // letter): the vocabulary stores them verbatim
+        tokens.push("<\u{fb01}n>".into());
+        tokens.push(["<\u{ff12}>", "<x\u{b2}>", "<e\u{301}>"][ctx.rng.random_range(0..3)].into());
+    } else if r < 84 {
         // a user-supplied list with other names than the default ones (no "<unk>" in it)
         tokens = vec!["<pad>".into(), "<s>".into(), "</s>".into(), "<mask>".into()];
     }
@@ -1071,7 +1091,7 @@ pub fn run_bpe(ctx: &mut Ctx, c03: bool) {
 pub fn run_c04(ctx: &mut Ctx) {
     if ctx.first_shard() {
         // every tokenizer kind with special-token lists that do / do not contain the unknown token and the default names
-        let lists: [&[&str]; 5] = [&["<pad>"], &["<pad>", "<s>", "</s>"], &["<unk>", "<pad>"], &["<pad>", "<unk>", "<bos>", "<eos>"], &["<x>", "<pad>"]];
+        let lists: [&[&str]; 6] = [&["<pad>"], &["<pad>", "<s>", "</s>"], &["<unk>", "<pad>"], &["<pad>", "<unk>", "<bos>", "<eos>"], &["<x>", "<pad>"], &["<\u{fb01}n>", "<pad>", "<unk>", "<\u{ff12}>"]];
         for l in lists {
             let tokens: Vec<String> = l.iter().map(|x| x.to_string()).collect();
             let c = Common { tokens: tokens.clone(), pad: "<pad>".into(), prefix: vec![tokens[0].clone()], suffix: vec![] };
@@ -1082,6 +1102,9 @@ pub fn run_c04(ctx: &mut Ctx) {
             }
             emit_vocab(ctx, "bytevocab", &Kind::Byte { cp_groups: false, pad_to: None }, &c, 300);
             emit_vocab(ctx, "bpevocab", &Kind::Bpe { table: adversarial_tables()[0].clone(), max_vocab: None }, &c, 300);
+            // merges whose byte strings are characters a normalisation would change: superscript two, the fi ligature
+            let t: Vec<(Vec<u8>, u32)> = vec![(vec![0xC2, 0xB2], 0), (vec![0xEF, 0xAC], 1), (vec![0xEF, 0xAC, 0x81], 2), (vec![b'a', 0xC2, 0xB2], 3)];
+            emit_vocab(ctx, "bpevocab", &Kind::Bpe { table: t, max_vocab: None }, &c, 300);
         }
     }
     let n = ctx.budget(150, 3000);
